@@ -9,6 +9,20 @@ from props import c01
 from props.c01 import (impl, coq_case, oracle, MODEL_VO, COQ_IMPORTS, COQ_RUN, COQ_CASE_TYPE, T, one, dl_x, ul_x,
                        rdata, MUXES, shrink)
 from ref.sdo_ref_server import RefServer, mux_key, DEFAULT_STYLE
+from ref import libsrv_faults
+
+
+def impl(c):
+    return libsrv_faults.run(c) if c.get("kind") == "libsrv" else c01.impl(c)
+
+
+def oracle(c, o):
+    return libsrv_faults.check(c, o) if c.get("kind") == "libsrv" else c01.oracle(c, o)
+
+
+def shrink(c):
+    return [] if c.get("kind") == "libsrv" else c01.shrink(c)
+
 
 PROP = "C07"
 ANCHORS = c01.ANCHORS
@@ -159,6 +173,7 @@ def gen_cases(rng, tier):
             else:
                 ts.append(T(dl_x(rng, n, rng.choice(("download", "force", "b0_nosize", "b0_size")), mux=mux), fault=[k, f]))
         cases.append(one("two_faults", ts + follow_up(rng, mux, n), store=[[mux_key(*mux), val]]))
+    lib_cases = libsrv_faults.gen(rng, tier)      # the library's own server as the peer (oracle only)
     if tier == "quick":
         # keep the quick tier within its time budget: a seeded sample of the grid, every kind kept
         keep = []
@@ -169,10 +184,12 @@ def gen_cases(rng, tier):
             rng.shuffle(cs)
             keep.extend(cs[:max(40, len(cs) // 3)])
         cases = keep
-    return cases
+    return cases + lib_cases
 
 
 def nontrivial(case):
+    if case.get("kind") == "libsrv":
+        return True
     return any(t.get("fault") is not None or t.get("pre") for t in case["ts"])
 
 
